@@ -1,5 +1,6 @@
 pub mod evidence;
 pub mod findings;
+pub mod mutate;
 pub mod refthrift;
 pub mod shrink;
 pub mod tval;
